@@ -1,7 +1,9 @@
 """C11 - Duplicate produces an equal, fully independent copy."""
+import ctypes
+
 from hypothesis import strategies as st
 
-from .. import model
+from .. import gens, model
 from ..core import Prop, Violation
 from ..treemodel import World
 from ..treeops import Interp, pick
@@ -20,11 +22,12 @@ class C11(Prop):
             "pointer-identical; then a second drawn edit/delete program runs with every live tree (source and copy) compared to the model "
             "after every step; final deletion must empty the ledger. (deep) single-child chains of N nested containers with N in "
             "{LIMIT-1, LIMIT, LIMIT+2, LIMIT+3}, LIMIT = CJSON_CIRCULAR_LIMIT. (cyclic) self-loop, 2-cycle and cycle below a healthy "
-            "prefix made by writing child directly: NULL, ledger unchanged, source bytes unchanged. non-trivial = tree of depth >= 2 with a "
+            "prefix made by writing child directly: NULL, ledger unchanged, source bytes unchanged. (wide) arrays and objects of 10^4..4*10^5 "
+            "items, at the root or nested: same count, values, keys, healthy chain, independent of the source. non-trivial = tree of depth >= 2 with a "
             "reference, constant key or string, followed by >= 1 mutating step; deep/cyclic shapes count by shape; distinct by case hash")
     ASSUMPTIONS = ["N = LIMIT+1 containers gets no verdict (the code counts node depth, the statement says 'nested deeper than the limit': "
                    "whether the innermost empty container of LIMIT+1 counts is left open)"]
-    REQUIRED_CLASSES = ["program", "deep_accept", "deep_refuse", "deep_with_siblings", "cyclic", "cyclic_through_api_reference", "deep_const_keys", "copy_of_reference", "copy_with_const_key", "non_recursive"]
+    REQUIRED_CLASSES = ["program", "deep_accept", "deep_refuse", "deep_with_siblings", "cyclic", "cyclic_through_api_reference", "deep_const_keys", "copy_of_reference", "copy_with_const_key", "non_recursive", "wide_container"]
 
     def budget(self, tier):
         return {"workers": 14, "examples": 500 if tier == "quick" else 12000}
@@ -36,13 +39,18 @@ class C11(Prop):
                                       "leaf": st.booleans(), "siblings": st.sampled_from([0, 0, 1, 2, 7, 1000])})
         cyc = st.fixed_dictionaries({"kind": st.just("cyclic"), "shape": st.sampled_from(["self", "two", "below_prefix", "api_self_reference", "api_reference_loop"]),
                                      "prefix": st.integers(1, 6), "pattern": st.integers(0, 7), "siblings": st.sampled_from([0, 1, 2])})
-        return st.one_of(prog, prog, prog, prog, prog, prog, prog, prog, prog, prog, prog, prog, deep, cyc)
+        # very long sibling lists: a copy must not recurse over siblings, lose count, or mislink the tail
+        wide = st.fixed_dictionaries({"kind": st.just("wide"), "n": st.sampled_from([10000, 10001, 10002, 65536, 150000, 400000]),
+                                      "object": st.booleans(), "nested": st.booleans()})
+        return gens.weighted((120, prog), (18, deep), (18, cyc), (2, wide))
 
     # ------------------------------------------------------------------
     def run_case(self, lib, case, stats):
         k = case["kind"]
         if k == "program":
             self.run_program(lib, case, stats)
+        elif k == "wide":
+            self.run_wide(lib, case, stats)
         elif k == "deep":
             self.run_deep(lib, case, stats)
         else:
@@ -52,6 +60,52 @@ class C11(Prop):
         s = lib.stats()
         if s.foreign_free or s.cross_free:
             raise Violation("foreign or double free", key="free")
+
+    def run_wide(self, lib, case, stats):
+        n = case["n"]
+        arr = (ctypes.c_int * n)(*range(n))
+        src = lib.cJSON_CreateIntArray(arr, n)
+        if case["object"]:
+            # turn the elements into members (keys k<i>) by moving them into an object
+            obj = lib.cJSON_CreateObject()
+            for i in range(n):
+                lib.cJSON_AddItemToObject(obj, b"k%d" % i, lib.cJSON_DetachItemFromArray(src, 0))
+            lib.cJSON_Delete(src)
+            src = obj
+        root = src
+        if case["nested"]:
+            root = lib.cJSON_CreateArray()
+            lib.cJSON_AddItemToArray(root, lib.cJSON_CreateString(b"before"))
+            lib.cJSON_AddItemToArray(root, src)
+            lib.cJSON_AddItemToArray(root, lib.cJSON_CreateString(b"after"))
+        stats.cls("wide_container")
+        stats.nontriv(["wide", n, case["object"], case["nested"]], dict(case))
+        cp = lib.cJSON_Duplicate(root, 1)
+        try:
+            if not cp:
+                raise Violation("Duplicate returned NULL for a container of %d items (depth %d)" % (n, 2 if case["nested"] else 1), key="wide-null")
+            inner = lib.cJSON_GetArrayItem(cp, 1) if case["nested"] else cp
+            buf = (ctypes.c_int * (n + 16))()
+            got = lib.shim_array_ints(inner, buf, n + 16)
+            if got != n or ctypes.string_at(buf, 4 * n) != ctypes.string_at(arr, 4 * n):
+                raise Violation("the copy of a container of %d items holds %d items or different values" % (n, got), key="wide-content")
+            if case["object"] and lib.shim_members_named_by_value(inner) != -1:
+                raise Violation("a member of the copy of a long object has the wrong key", key="wide-content")
+            fl, _, _ = lib.walk(cp, 1, 1)
+            if fl:
+                raise Violation("the copy of a long container has structural defects %d" % fl, key="wide-structure")
+            if lib.shim_next(cp) or lib.shim_prev(cp):
+                raise Violation("the copy has sibling links", key="wide-structure")
+            # independence: an append to the copy does not show in the source and vice versa
+            lib.cJSON_AddItemToArray(inner, lib.cJSON_CreateNumber(-5.0)) if not case["object"] else lib.cJSON_AddNumberToObject(inner, b"k-5", -5.0)
+            if lib.cJSON_GetArraySize(src) != n or lib.cJSON_GetArraySize(inner) != n + 1:
+                raise Violation("appending to the copy of a long container changed the source (or was lost)", key="wide-independent")
+            if not lib.cJSON_Compare(root, root, 1):
+                raise Violation("a long container does not compare equal to itself", key="wide-compare")
+        finally:
+            lib.cJSON_Delete(root)
+            if cp:
+                lib.cJSON_Delete(cp)
 
     def run_program(self, lib, case, stats):
         w = World(lib, stats, True)
